@@ -175,3 +175,54 @@ contract("src/dataset_processor.py:construct_models_in_parallel#novel_storage",
                             "any(novel_model_storage[j] == model_constructor.transcript_model_storage[k] for j in range(len(old(novel_model_storage)), len(novel_model_storage))) "
                             "for k in range(_k0))"]}},
          canary="len(result) == len(old(novel_model_storage))")
+
+
+# ---- id strings: the numbers restart on every chromosome, so the chromosome has to be part of every generated id ---------------------------
+from pyvc.api import finite as _finite
+
+
+@_finite("C17.id_shapes", ["C17", "C04"], note="every place in src/ that builds a novel gene id (TranscriptNaming.novel_gene_prefix + ...) or passes a "
+         "generated transcript id to TranscriptModel: the string must contain the chromosome id and a number drawn from the per-chromosome "
+         "distributor (get_transcript_id); read from the AST")
+def c17_id_shapes(tier, rng):
+    import ast, glob, os
+    obl = dis = 0
+    viol = []
+    sites = 0
+    for path in sorted(glob.glob(os.path.join(_front.REPO, "src", "*.py"))):
+        rel = os.path.relpath(path, _front.REPO)
+        tree = ast.parse(open(path).read())
+        parents = {}
+        for n in ast.walk(tree):
+            for ch in ast.iter_child_nodes(n):
+                parents[ch] = n
+        for n in ast.walk(tree):
+            if isinstance(n, ast.Attribute) and n.attr == "novel_gene_prefix" and isinstance(parents.get(n), ast.BinOp):
+                top = n
+                while isinstance(parents.get(top), ast.BinOp):
+                    top = parents[top]
+                text = ast.unparse(top)
+                sites += 1
+                obl += 1
+                ok = "chr_id" in text and "get_transcript_id()" in text
+                if ok:
+                    dis += 1
+                else:
+                    viol.append({"obligation": "C17.id_shapes.gene.%s.%d" % (rel.replace("/", "_"), n.lineno), "inputs": None,
+                                 "observed": "%s:%d builds a novel gene id as %s" % (rel, n.lineno, text),
+                                 "required": "novel_gene_prefix + <chromosome id> + '_' + str(<number from the per-chromosome distributor>)"})
+            if isinstance(n, ast.Call) and isinstance(n.func, ast.Name) and n.func.id == "TranscriptModel" and len(n.args) >= 3:
+                text = ast.unparse(n.args[2])
+                if "new_transcript_id" in text:
+                    sites += 1
+                    obl += 1
+                    if "chr_id" in text:
+                        dis += 1
+                    else:
+                        viol.append({"obligation": "C17.id_shapes.transcript.%s.%d" % (rel.replace("/", "_"), n.lineno), "inputs": None,
+                                     "observed": "%s:%d names a novel transcript %s" % (rel, n.lineno, text),
+                                     "required": "generated transcript ids carry the chromosome id"})
+    if sites == 0:
+        viol.append({"obligation": "C17.id_shapes.nontrivial", "inputs": None, "observed": "no id construction site found", "required": "inventory applies", "undecided": True})
+    return {"obligations": obl, "discharged": dis, "violations": viol, "cases": obl, "exhaustive": True, "bound": "all %d construction sites in src/" % sites,
+            "samples": [{"site": "construct_fl_isoforms"}]}
